@@ -50,39 +50,7 @@ func genC03() error {
 		}
 		return false
 	}
-	// members of an enum type, by value
-	members := func(n *types.Named) []string {
-		type mv struct {
-			name string
-			v    int64
-		}
-		var ms []mv
-		sc := n.Obj().Pkg().Scope()
-		for _, nm := range sc.Names() {
-			c, ok := sc.Lookup(nm).(*types.Const)
-			if !ok || !types.Identical(c.Type(), n) {
-				continue
-			}
-			v, _ := constant.Int64Val(c.Val())
-			ms = append(ms, mv{nm, v})
-		}
-		sort.Slice(ms, func(i, j int) bool {
-			if ms[i].v != ms[j].v {
-				return ms[i].v < ms[j].v
-			}
-			return ms[i].name < ms[j].name
-		})
-		var r []string
-		var last int64 = -1 << 62
-		for _, m := range ms {
-			if m.v == last {
-				continue // alias of the same value
-			}
-			last = m.v
-			r = append(r, m.name)
-		}
-		return r
-	}
+	members := enumMembers
 	isEnum := func(t types.Type) (*types.Named, bool) {
 		n, ok := t.(*types.Named)
 		if !ok || n.Obj().Pkg() == nil || n.Obj().Pkg().Path() != repoMod+"/ir/enum" {
@@ -407,3 +375,39 @@ func hGenIsFP(x interface{}) bool {
 	fmt.Fprintf(os.Stderr, "gen: structural comparator and variations for %d instruction/terminator structs written to %s\n", count, out)
 	return os.WriteFile(out, []byte(sb.String()), 0o644)
 }
+
+// enumMembers lists the declared constants of an enum type by value (aliases of
+// one value once).
+func enumMembers(n *types.Named) []string {
+	type mv struct {
+		name string
+		v    int64
+	}
+	var ms []mv
+	sc := n.Obj().Pkg().Scope()
+	for _, nm := range sc.Names() {
+		c, ok := sc.Lookup(nm).(*types.Const)
+		if !ok || !types.Identical(c.Type(), n) {
+			continue
+		}
+		v, _ := constant.Int64Val(c.Val())
+		ms = append(ms, mv{nm, v})
+	}
+	sort.Slice(ms, func(i, j int) bool {
+		if ms[i].v != ms[j].v {
+			return ms[i].v < ms[j].v
+		}
+		return ms[i].name < ms[j].name
+	})
+	var r []string
+	var last int64 = -1 << 62
+	for _, m := range ms {
+		if m.v == last {
+			continue // alias of the same value
+		}
+		last = m.v
+		r = append(r, m.name)
+	}
+	return r
+}
+
